@@ -264,8 +264,13 @@ const RESIDUE_BODIES: [&str; 26] = [
 const RESIDUE_COUNTS: [u64; 6] = [0, 1, 2, 3, 1000, 70000];
 const TRAIL: &str = "functie som(a, b, c) { stel l = a + b; l + c } stel p = 11; stel q = 22; [som(p, q, 33), p, q, lengte([p, q]), id(5)]";
 
-fn residue_program(body: &str, n: u64, in_function: bool) -> String {
-    let core = format!("stel x = 0; stel lijst = [0, 0, 0]; stel i = 0; zolang i < {} {{ i += 1; {} }}; {}", n, body, TRAIL);
+/// `forever`: the loop is `zolang ja` and leaves through `stop` (the condition is a literal, no comparison per round)
+fn residue_program(body: &str, n: u64, in_function: bool, forever: bool) -> String {
+    let core = if forever {
+        format!("stel x = 0; stel lijst = [0, 0, 0]; stel i = 0; zolang ja {{ als i >= {} {{ stop }}; i += 1; {} }}; {}", n, body, TRAIL)
+    } else {
+        format!("stel x = 0; stel lijst = [0, 0, 0]; stel i = 0; zolang i < {} {{ i += 1; {} }}; {}", n, body, TRAIL)
+    };
     if in_function {
         format!("functie id(v) {{ v }} functie proef() {{ {} }} proef()", core)
     } else {
@@ -359,7 +364,7 @@ impl Flow {
             Which::C11 => Families::new(vec![
                 ("directed", c11_directed().len() as u64),
                 ("templates", tmpl),
-                ("residue", (RESIDUE_BODIES.len() * 2) as u64),
+                ("residue", (RESIDUE_BODIES.len() * 4) as u64),
                 ("control-random", rnd),
             ]),
             Which::C12 => Families::new(vec![("directed", c12_directed().len() as u64), ("limits", limit_cases().len() as u64), ("calls-random", rnd)]),
@@ -376,7 +381,7 @@ impl Flow {
                 let k = (i * stride + ctx.seed % stride.max(1)) % TEMPLATE_SPACE;
                 (name, to_text(&template(k)))
             }
-            "residue" => (name, residue_program(RESIDUE_BODIES[(i / 2) as usize], 3, i % 2 == 1)),
+            "residue" => (name, residue_program(RESIDUE_BODIES[(i / 4) as usize], 3, i % 2 == 1, (i / 2) % 2 == 1)),
             "control-random" => (name, to_text(&random_program(&mut r, Profile::Control).0)),
             "directed" if self.which == Which::C11 => (name, c11_directed()[i as usize].1.to_string()),
             "directed" => (name, c12_directed()[i as usize].1.clone()),
@@ -516,9 +521,10 @@ impl Check for Flow {
         st.count(&format!("cases:{}", fam));
         match fam {
             "residue" => {
-                let body = RESIDUE_BODIES[(i / 2) as usize];
+                let body = RESIDUE_BODIES[(i / 4) as usize];
                 let in_fn = i % 2 == 1;
-                st.set_insert("residue-templates", &format!("{}|{}", body, if in_fn { "function" } else { "top level" }));
+                let forever = (i / 2) % 2 == 1;
+                st.set_insert("residue-templates", &format!("{}|{}|{}", body, if in_fn { "function" } else { "top level" }, if forever { "zolang ja" } else { "counted" }));
                 // (a) heights at the loop head, from the trace of a 3-iteration run, and on all paths of the bytecode
                 if ctx.flavour == Flavour::Rel {
                     if let Some(f) = bytecode_residue(&text) {
@@ -533,7 +539,7 @@ impl Check for Flow {
                 // (b) the trailing code behaves the same after any number of iterations
                 let mut first: Option<(u64, String)> = None;
                 for n in RESIDUE_COUNTS {
-                    let t = residue_program(body, n, in_fn);
+                    let t = residue_program(body, n, in_fn, forever);
                     let mut c = cfg.clone();
                     c.budget = Some(5_000_000);
                     let o = eval_observed(&t, &c);
@@ -626,7 +632,7 @@ impl Check for Flow {
         let mut inconclusive = vec![];
         match self.which {
             Which::C11 => {
-                if merged.sets.get("residue-templates").map(|s| s.len()).unwrap_or(0) != RESIDUE_BODIES.len() * 2 {
+                if merged.sets.get("residue-templates").map(|s| s.len()).unwrap_or(0) != RESIDUE_BODIES.len() * 4 {
                     inconclusive.push("residue templates incomplete".to_string());
                 }
                 if ctx.flavour == Flavour::Rel && merged.counters.get("loop-heads-traced").copied().unwrap_or(0) == 0 {
